@@ -1,5 +1,6 @@
 """C13 — QuotientFilter: result codes and counter accounting of insert (the slot bookkeeping itself is not decided)."""
 from ..paths import PathEnumerator
+from ..guards import fv
 from ..terms import TermBuilder, fmt, mk, const
 from .common import SELF, self_field
 
@@ -41,8 +42,8 @@ def run(ctx):
         if p.exit_kind != "return":
             continue
         facts = dict((repr(c), t) for c, t in pe.path_facts(p))
-        pr = facts.get(repr(present))
-        fu = facts.get(repr(full))
+        pr = fv(facts, present)
+        fu = fv(facts, full)
         if pr is True:
             classes["present"].append(p)
         elif pr is False and fu is True:
@@ -144,7 +145,7 @@ def ring_rules(ctx):
             n += 1
             facts = {repr(c): t for c, t in pe.path_facts(p)}
             ws = [e for e in p.events if e["kind"] == "write" and e["root"] == ("param", 2) and e["how"] == "store"]
-            g = facts.get(repr(guard))
+            g = fv(facts, guard)
             if len(ws) != 1 or g is None:
                 probs.append("path without exactly one store to *pos under the wrap test")
                 continue
@@ -161,9 +162,9 @@ def ring_rules(ctx):
                 if st.k == "assign" and st.place.is_local() and f.local_ty(st.place.local) == "usize" and not f.local_name(st.place.local):
                     t = tb.rvalue(st.rv, bi, si)
                     fs = {repr(c): tr for c, tr in atomic_facts(f, prog, bi, tb)}
-                    if t == wrapv and fs.get(repr(guard)) is False:
+                    if t == wrapv and fv(fs, guard) is False:
                         probs.append("wrap value chosen on the non-wrapping branch")
-                    if t == stepv and fs.get(repr(guard)) is True:
+                    if t == stepv and fv(fs, guard) is True:
                         probs.append("step value chosen on the wrapping branch")
         ctx.check(not probs and n == 2, "R13-ring", f.key, f, "%s: %s ? %s : %s" % (nm, fmt(guard), fmt(wrapv), fmt(stepv)), "; ".join(sorted(set(probs))[:2]) or "%d paths" % n)
 
@@ -302,13 +303,13 @@ def swap_chain_rules(ctx, ii):
         facts = {repr(c): tr for c, tr in atomic_facts(ii, prog, bi, tb)}
         if fld == "is_shifted":
             seen.add(fld)
-            if not (a[1] == posn and a[2] == const(True) and facts.get(repr(mk("Ne", posn, ("param", 2, "quotient")))) is True):
+            if not (a[1] == posn and a[2] == const(True) and fv(facts, mk("Ne", posn, ("param", 2, "quotient"))) is True):
                 probs.append("is_shifted[position] is not set exactly under position != quotient")
         if fld == "is_continuation":
             seen.add(fld)
             hr = ("call", "filters::quotientfilter::ScanResult::has_run", (scan_t,))
             hr2 = ("call", "std::option::Option::is_some", (("field", scan_t, "start_of_run"),))
-            if not (a[1] == posn and a[2] == const(True) and (facts.get(repr(hr)) is True or facts.get(repr(hr2)) is True)):
+            if not (a[1] == posn and a[2] == const(True) and (fv(facts, hr) is True or fv(facts, hr2) is True)):
                 probs.append("is_continuation[position] is not set under has_run && !at_start_of_run")
         if fld == "is_occupied":
             seen.add(fld)
@@ -348,7 +349,7 @@ def split_rules(ctx):
         for si, st in enumerate(blk.stmts):
             if st.k == "assign" and st.rv.k == "use" and st.rv.ops[0].k == "const" and st.rv.ops[0].value() == 0 and f.local_ty(st.place.local) == "u64":
                 fs = {repr(c): tr for c, tr in atomic_facts(f, prog, bi, tb)}
-                if fs.get(repr(mk("Lt", const(0), bt))) is False:
+                if fv(fs, mk("Lt", const(0), bt)) is False:
                     oks = True
     ctx.check(oks, "R13-split", f.key + ":no-trash", f, "no bits are dropped exactly when q + r == 64", "the `bits_trash > 0` case split is missing or inverted")
 
@@ -405,7 +406,12 @@ def scan_rules(ctx):
     if not e1:
         probs.append("no loop walks left from the quotient (decr) while is_shifted and stops at the first unshifted slot")
     # E2: run skipping / end-of-run tests on is_continuation at the incremented cursor, exit on false
-    e2 = has_exit(lambda h, ca, c, pol: c[0] == "index" and c[1] == ("field", selfp, "is_continuation") and c[2][0] == "call" and c[2][1].endswith("incr::out2") and pol is False)
+    def cursor_advanced_by_incr(ca, x):
+        # the tested slot is incr(cursor) or a loop-carried cursor whose update is incr(cursor)
+        if x[0] == "call" and x[1].endswith("incr::out2"):
+            return True
+        return x[0] == "loopvar" and x[1] in ca and ca[x[1]][1][0] == "call" and ca[x[1]][1][1].endswith("incr::out2")
+    e2 = has_exit(lambda h, ca, c, pol: c[0] == "index" and c[1] == ("field", selfp, "is_continuation") and cursor_advanced_by_incr(ca, c[2]) and pol is False)
     if len({h for h, _, _ in e2}) < 2:
         probs.append("expected two loops that advance a slot cursor (incr) until is_continuation is false (run skip, in-run search); found %d" % len({h for h, _, _ in e2}))
     # E3: next occupied bucket
@@ -471,6 +477,6 @@ def scan_rules(ctx):
         if p.exit_kind != "return":
             continue
         facts = {repr(c): t for c, t in pe.path_facts(p)}
-        if len(p.blocks) <= 6 and facts.get(repr(occ_q)) is False and facts.get(repr(on_ins)) is False:
+        if len(p.blocks) <= 6 and fv(facts, occ_q) is False and fv(facts, on_ins) is False:
             okf = True
     ctx.check(okf, "R13-scan-results", sc.key + ":fast-path", sc, "fast path taken exactly under !is_occupied[quotient] && !on_insert", "the query fast path is not guarded by !is_occupied[quotient] && !on_insert")
